@@ -22,6 +22,7 @@ recorded frames of the surviving sessions according to the write mode.
 
 from __future__ import annotations
 
+import contextlib
 import warnings
 
 import numpy as np
@@ -302,6 +303,15 @@ class Model:
     def times(self):
         return [fr[0] for fr in self.frames]
 
+    def lossy(self, dtype=None):
+        """a frame does not cast safely to the dtype of the template (or to ``dtype``): reading
+        it is not held to the stored values (see ASSUMPTIONS)"""
+        if dtype is None:
+            if self.template is None:
+                return False
+            dtype = self.template.dtype
+        return any(not exact_cast(a.dtype, dtype) for _, a in self.frames)
+
     # Each method returns None when the call must succeed, or the tuple of acceptable
     # exception types when it must be rejected (and then leaves the model untouched).
     def start(self, template):
@@ -344,6 +354,18 @@ def same_array(a, b):
     return a.shape == b.shape and bool(np.array_equal(a, b))
 
 
+@contextlib.contextmanager
+def quiet_if(flag):
+    """silence NumPy's ComplexWarning while a storage that holds a frame wider than its
+    template is read (nothing is silenced otherwise)"""
+    if not flag:
+        yield
+        return
+    with warnings.catch_warnings():
+        warnings.simplefilter("ignore")
+        yield
+
+
 class StorageHistory(History):
     MAX_FRAMES = 10
     MAX_DERIVED = 4
@@ -361,9 +383,11 @@ class StorageHistory(History):
         self.grids = [gen_grids.build_grid(s) for s in self.gspecs]
         self.dtype = init["dtype"]
         self.pool = init["pool"]
-        self.src_model = [spec_array(s, self.gspecs, self.dtype) for s in self.pool]
-        self.src = [build_field(s, self.grids, a, self.dtype) for s, a in zip(self.pool, self.src_model)]
-        self.src_tpl = [template_of(s, self.gspecs, self.dtype) for s in self.pool]
+        self.pool_dtype = [s.get("dtype", self.dtype) for s in self.pool]
+        self.src_model = [spec_array(s, self.gspecs, dt) for s, dt in zip(self.pool, self.pool_dtype)]
+        self.src = [build_field(s, self.grids, a, dt)
+                    for s, a, dt in zip(self.pool, self.src_model, self.pool_dtype)]
+        self.src_tpl = [template_of(s, self.gspecs, dt) for s, dt in zip(self.pool, self.pool_dtype)]
         self.reads = []  # [field, model array, template, mutated flag]
         self.flags = set()
         self.sessions = 0
@@ -374,7 +398,7 @@ class StorageHistory(History):
 
     def make_main(self, init):
         route, mode = init["route"], init["mode"]
-        spec0, tpl0 = self.pool[0], self.src_tpl[0]
+        spec0, tpl0, dtype0 = self.pool[0], self.src_tpl[0], self.pool_dtype[0]
         if route == "plain":
             s, m = MemoryStorage(write_mode=mode), Model(mode)
         elif route == "context":
@@ -386,11 +410,11 @@ class StorageHistory(History):
             m.open = False
             self.sessions += 1
         else:
-            frames = [[t, spec_array(spec0, self.gspecs, self.dtype, seed)] for t, seed in init["prefill"]]
+            frames = [[t, spec_array(spec0, self.gspecs, dtype0, seed)] for t, seed in init["prefill"]]
             times = [fr[0] for fr in frames]
             if route == "from_fields":
                 if frames:
-                    fields = [build_field(spec0, self.grids, fr[1], self.dtype) for fr in frames]
+                    fields = [build_field(spec0, self.grids, fr[1], dtype0) for fr in frames]
                     s = MemoryStorage.from_fields(times, fields, write_mode=mode)
                     m = Model(mode, tpl0, tpl0.shape, frames)
                 else:
@@ -431,8 +455,14 @@ class StorageHistory(History):
             self.fail("label", f"{what}: label {fld.label!r} expected {tpl.label!r}", si)
         if fld.dtype != tpl.dtype or fld.data.dtype != tpl.dtype:
             self.fail("dtype", f"{what}: dtype {fld.dtype}/{fld.data.dtype} expected {tpl.dtype}", si)
-        if not same_array(fld.data, arr):
-            self.fail("data", f"{what}: data {np.asarray(fld.data).tolist()} expected {arr.tolist()}", si)
+        # values: only when the stored dtype casts safely to the template's (see ASSUMPTIONS)
+        stored_dtype = arr.dtype
+        exact = exact_cast(stored_dtype, tpl.dtype)
+        if exact:
+            arr = arr.astype(tpl.dtype)
+        if exact and not same_array(fld.data, arr):
+            self.fail("data", f"{what}: data {np.asarray(fld.data).tolist()} expected {arr.tolist()} "
+                      f"(frame appended as {stored_dtype}, template dtype {tpl.dtype})", si)
         if tpl.members is not None:
             if len(fld) != len(tpl.members):
                 self.fail("members", f"{what}: {len(fld)} members, expected {len(tpl.members)}", si)
@@ -442,8 +472,10 @@ class StorageHistory(History):
                     self.fail("class", f"{what}: member {k} is {type(sub).__name__}, expected {m['cls']}", si)
                 if m["label"] != ANY and sub.label != m["label"]:
                     self.fail("label", f"{what}: member {k} label {sub.label!r} expected {m['label']!r}", si)
+                if sub.dtype != tpl.dtype:
+                    self.fail("dtype", f"{what}: member {k} dtype {sub.dtype} expected {tpl.dtype}", si)
                 want = arr[m["rows"][0]:m["rows"][1]].reshape(m["shape"])
-                if not same_array(sub.data, want):
+                if exact and not same_array(sub.data, want):
                     self.fail("member-data", f"{what}: member {k} data {sub.data.tolist()} expected "
                               f"{want.tolist()}", si)
 
@@ -471,11 +503,21 @@ class StorageHistory(History):
                              f"{self.ctx}:has_collection-empty")
         if len(s.data) != n:
             self.fail("len", f"{origin}: len(data) {len(s.data)} expected {n}", si)
-        got = []
+        # the stored frames themselves keep dtype and values of the appended field
         for i in range(n):
-            f = s[i]
-            self.check_field(f, m.template, m.frames[i][1], f"{origin}[{i}]", si)
-            got.append(f)
+            raw, want = s.data[i], m.frames[i][1]
+            if not isinstance(raw, np.ndarray) or raw.dtype != want.dtype:
+                self.fail("stored-dtype", f"{origin}: storage.data[{i}] has dtype "
+                          f"{getattr(raw, 'dtype', type(raw))}, the appended data had {want.dtype}", si)
+            if not same_array(raw, want):
+                self.fail("stored-data", f"{origin}: storage.data[{i}] is {raw.tolist()}, appended was "
+                          f"{want.tolist()}", si)
+        got = []
+        with quiet_if(m.lossy()):
+            for i in range(n):
+                f = s[i]
+                self.check_field(f, m.template, m.frames[i][1], f"{origin}[{i}]", si)
+                got.append(f)
         # fresh objects: not the stored arrays, not each other, not the template
         for i, f in enumerate(got):
             if np.shares_memory(f._data_full, s.data[i]):
